@@ -45,6 +45,26 @@ class LoopCtx:
     def pre_local(self, name):
         return self.pre_locals[name]
 
+    # heaps for loop specifications
+    def now(self):
+        from .contract import Heap, _LiveSnap
+        return Heap(None, _LiveSnap(self.I.st))
+
+    def at_entry(self):
+        from .contract import Heap
+        return Heap(None, self.pre)
+
+    def at_iteration_start(self):
+        from .contract import Heap
+        return Heap(None, self.iter_pre)
+
+    def iter_log(self):
+        return self.I.st.log[self.iter_log_start:]
+
+    def cid(self, name):
+        t = self.I.table
+        return t.ids[name] if name in t.ids else self.I.index.find_class(name).cid
+
 
 def assigned_names(stmts):
     out = []
@@ -443,15 +463,36 @@ class StmtMixin:
             self.apply_havoc(extra_modifies)
 
     def havoc_all_heap(self):
-        """Havoc every heap component except the type map and immutable structure of fresh objects."""
+        """Havoc every heap component except the type map, and except state registered as private to the
+        function under verification (st.ghost['protected']: encapsulation assumption, listed in evidence)."""
+        prot = self.st.ghost.get("protected") or {}
+        pf = set(prot.get("fields", ()))
+        old = (self.st.llen, self.st.lel, self.st.dhas, self.st.dval, self.st.dlen)
         for f in list(self.st.fields):
+            if f in pf:
+                continue
             self.st.fields[f] = self.ctx.fresh("hvF_" + f, ArrIV)
+        self.st.heap_gen += 1
+        for f in pf:
+            self.st.field_arr(f) if f not in self.st.fields else None
+        # (protected fields keep their current arrays; unseen unprotected fields get generation-fresh names)
         self.st.ghost["_havoc_all"] = True
         self.st.llen = self.ctx.fresh("hvLLen", self.st.llen.sort())
         self.st.lel = self.ctx.fresh("hvLEl", self.st.lel.sort())
         self.st.dhas = self.ctx.fresh("hvDHas", self.st.dhas.sort())
         self.st.dval = self.ctx.fresh("hvDVal", self.st.dval.sort())
         self.st.dlen = self.ctx.fresh("hvDLen", self.st.dlen.sort())
+        for v in prot.get("lists", ()):
+            r = Val.r(v)
+            self.st.llen = z3.Store(self.st.llen, r, z3.Select(old[0], r))
+            self.st.lel = z3.Store(self.st.lel, r, z3.Select(old[1], r))
+        for v in prot.get("dicts", ()):
+            r = Val.r(v)
+            self.st.dhas = z3.Store(self.st.dhas, r, z3.Select(old[2], r))
+            self.st.dval = z3.Store(self.st.dval, r, z3.Select(old[3], r))
+            self.st.dlen = z3.Store(self.st.dlen, r, z3.Select(old[4], r))
+        if hasattr(self, "reassume_invariants"):
+            self.reassume_invariants()
 
     def s_While(self, st):
         if st.orelse:
@@ -503,6 +544,15 @@ class StmtMixin:
         r = Val.r(it)
         if nm in ("list", "tuple", "deque", "set", "frozenset"):
             arr = self.lel(r)
+            esort = self.st.ghost.get("elem_sorts", {}).get(str(z3.simplify(it)))
+            if esort is not None:
+                interp = self
+
+                def typed(i):
+                    e = z3.Select(arr, i)
+                    interp.assume_shape(e, esort)
+                    return e
+                return Seq("list", self.llen(r), typed, it)
             return Seq("list", self.llen(r), lambda i: z3.Select(arr, i), it)
         if nm in ("dict", "OrderedDict"):
             return self.dict_seq(r, "keys")
@@ -568,12 +618,21 @@ class StmtMixin:
         if self.ctx.branch(idx < seq.length, "for-more"):
             self.assign_target(st.target, seq.element(idx), st)
             self.st.ghost["loop_index"] = idx
+            L.iter_pre = self.st.snapshot()
+            L.iter_log_start = len(self.st.log)
             try:
                 self.exec_block(st.body)
             except ContinueEx:
                 pass
             except BreakEx:
                 return
+            except PyRaise as pr:
+                if spec is not None and spec.body_no_raise:
+                    self.ctx.oblige(self.obl_name("SIG", "%s/body/%s" % (label, pr.origin)), "SIG", z3.BoolVal(False),
+                                    detail="an exception raised at %s ends the loop early: the remaining "
+                                           "elements are skipped" % pr.origin)
+                    raise PathAbort("loop body raised (reported)")
+                raise
             L.index = idx + 1
             if spec is not None and spec.invariant is not None:
                 self.ctx.oblige(self.obl_name("INV", label + "/preserved"), "INV", spec.invariant(L))
